@@ -634,7 +634,9 @@ def run_c17(rep, tier, seed):
         terms += [("Grid", ps.Grid(it)), ("Seq", ps.Seq(it, 3)), ("Tupl", ps.Tupl(ps.Grid(it), ps.FixStr("/"), ps.DecInt()))]
     terms += [("Rooms", ps.Rooms()), ("Rooms-skip", ps.Rooms(skip_on_error=True)), ("ValuedRooms", ps.ValuedRooms(ps.OneOf(ps.HexInt(), ps.Spaces(-1, "g")))),
               ("ValuedRooms-skip", ps.ValuedRooms(ps.HexInt(), skip_on_error=True, allow_redundant_border=True)), ("FixStr", ps.FixStr("ab")),
-              ("Dict", ps.Dict([1, 2], ["a", "ab"])), ("DecInt", ps.DecInt()), ("HexInt", ps.HexInt())]
+              ("Dict", ps.Dict([1, 2], ["a", "ab"])), ("DecInt", ps.DecInt()), ("HexInt", ps.HexInt()),
+              ("Spaces", ps.Spaces(0, "g")), ("IntSpaces", ps.IntSpaces(-1, 4, 2)), ("MultiDigit", ps.MultiDigit(3, 3)),
+              ("OneOf", ps.OneOf(ps.Spaces(0, "g"), ps.HexInt()))]
     sample = bodies if tier != "quick" else rnd.sample(bodies, 700)
     for (tname, comb) in terms:
         for (h, w) in [(1, 1), (1, 3), (2, 2), (3, 2)]:
